@@ -63,6 +63,9 @@ class JsonResource(Resource):
                 list.__setitem__(collection, slice(None), document_order)
         self._load_href.clear()
         self._find_feature.cache_clear()
+        # fragments resolved while loading must not outlive the load: the
+        # objects they name change position as soon as the model is edited
+        self._resolve_mem.clear()
         self.cache_enabled = False
 
     def save(self, output=None, options=None):
